@@ -147,6 +147,49 @@ theorem extract_length (comp : List Rat) (hne : comp ≠ []) (hnn : ∀ s ∈ co
   rw [hext, ← hga, ← hgb]
   exact computeLinear_length comp i j f g hf0 hf1 hg0 hg1 hi hfi hj hgj hle
 
+/-- **clamp_index_contract** — `LengthIndexedLine::clampIndex` on the *whole* index domain (the regenerated C++ is proved
+equal to `clampIndex` by `C19Gen.gen_clampIndex_eq`): the result always lies in `[0, total]`; an index inside the line is
+unchanged; a negative index is measured from the end; anything before the start is clamped to 0 (in particular
+`-2·total < i < -total`, which must *not* be measured from the end a second time), anything beyond the end to `total`. -/
+theorem clamp_index_contract (l : Line Rat) (hnn : l.NonNeg) (i : Rat) :
+    0 ≤ clampIndex l i ∧ clampIndex l i ≤ totalLen l ∧
+    (0 ≤ i → i ≤ totalLen l → clampIndex l i = i) ∧
+    (i < 0 → -totalLen l ≤ i → clampIndex l i = totalLen l + i) ∧
+    (i < -totalLen l → clampIndex l i = 0) ∧
+    (totalLen l < i → clampIndex l i = totalLen l) := by
+  have htn := totalLen_nonneg l hnn
+  unfold clampIndex positiveIndex
+  generalize totalLen l = T at *
+  refine ⟨?_, ?_, ?_, ?_, ?_, ?_⟩ <;> (simp only []; repeat' split) <;> grind
+
+/-- `clampIndex` is idempotent, so … -/
+theorem clamp_index_idem (l : Line Rat) (hnn : l.NonNeg) (i : Rat) : clampIndex l (clampIndex l i) = clampIndex l i := by
+  obtain ⟨h0, h1, hid, _⟩ := clamp_index_contract l hnn (clampIndex l i)
+  obtain ⟨g0, g1, _⟩ := clamp_index_contract l hnn i
+  exact hid g0 g1
+
+/-- **extract_line_clamps** — … `LengthIndexedLine::extractLine(a, b)` depends on its two indices only through their
+clamped values, for all `a`, `b` (negative, beyond the end, reversed): together with `extract_length` the extracted line of a
+LineString has length `clampIndex b − clampIndex a` whenever the clamped indices are in order. -/
+theorem extract_line_clamps (l : Line Rat) (hnn : l.NonNeg) (a b : Rat) :
+    extractLine l a b = extractLine l (clampIndex l a) (clampIndex l b) := by
+  simp only [extractLine, extractLocs, clamp_index_idem l hnn]
+
+theorem extract_length_clamped (comp : List Rat) (hne : comp ≠ []) (hnn : ∀ s ∈ comp, 0 ≤ s) (a b : Rat)
+    (hab : clampIndex [comp] a ≤ clampIndex [comp] b) :
+    outLen comp (extractLine [comp] a b) = clampIndex [comp] b - clampIndex [comp] a := by
+  have hnn' : Line.NonNeg [comp] := by
+    intro c hc s hs
+    simp only [List.mem_singleton] at hc
+    subst hc; exact hnn s hs
+  rw [extract_line_clamps [comp] hnn' a b]
+  exact (extract_length comp hne hnn _ _ (clamp_index_contract [comp] hnn' a).1 hab (clamp_index_contract [comp] hnn' b).2.1).2
+
+/-! non-vacuity: a line of length 10, `extractLine(-15, -2)` is the sub-line from 0 to 8 -/
+example : clampIndex ([[4, 6]] : Line Rat) (-15) = 0 ∧ clampIndex ([[4, 6]] : Line Rat) (-2) = 8 ∧
+    extractLine ([[4, 6]] : Line Rat) (-15) (-2) = [[⟨0, 0, 0⟩, ⟨0, 1, 0⟩, ⟨0, 1, 2/3⟩]] ∧
+    outLen [4, 6] (extractLine ([[4, 6]] : Line Rat) (-15) (-2)) = 8 := by decide +kernel
+
 /-! non-vacuity: substring of a three-segment line from 1/2 to 9/2 keeps both interior vertices -/
 example : extractLine [[1, 2, 3]] (1/2 : Rat) (9/2) = [[⟨0, 0, 1/2⟩, ⟨0, 1, 0⟩, ⟨0, 2, 0⟩, ⟨0, 2, 1/2⟩]] ∧
     outLen [1, 2, 3] (extractLine [[1, 2, 3]] (1/2 : Rat) (9/2)) = 4 := by decide +kernel
@@ -202,6 +245,22 @@ example : (∀ s ∈ pairs ([⟨0, 0⟩, ⟨4, 0⟩, ⟨4, 3⟩] : List (P2 Rat)
   intro s hs
   simp only [pairs, List.mem_cons, List.not_mem_nil, or_false] at hs
   rcases hs with rfl | rfl <;> (unfold GoodSeg IsSqrt; decide +kernel)
+
+/-- **segment_fraction_unit** — `LineSegment::segmentFraction` (the fraction `LocationIndexOfPoint` stores in a
+`LinearLocation`) always lies in [0, 1], is the projection factor itself when that lies in [0, 1], and is 0 / 1 exactly
+when the projection falls before the start / behind the end of the segment.  (The regenerated C++ is proved equal to
+`segmentFraction` by `C19Gen.gen_segmentFraction_eq`.) -/
+theorem segment_fraction_unit (p0 p1 p : P2 Rat) :
+    0 ≤ segmentFraction p0 p1 p ∧ segmentFraction p0 p1 p ≤ 1 ∧
+    (0 ≤ projectionFactor p0 p1 p → projectionFactor p0 p1 p ≤ 1 → segmentFraction p0 p1 p = projectionFactor p0 p1 p) ∧
+    (projectionFactor p0 p1 p < 0 → segmentFraction p0 p1 p = 0) ∧
+    (1 < projectionFactor p0 p1 p → segmentFraction p0 p1 p = 1) := by
+  unfold segmentFraction
+  generalize projectionFactor p0 p1 p = f
+  refine ⟨?_, ?_, ?_, ?_, ?_⟩ <;> (simp only []; repeat' split) <;> grind
+
+example : segmentFraction (⟨0, 0⟩ : P2 Rat) ⟨4, 0⟩ ⟨1, 7⟩ = 1/4 ∧ segmentFraction (⟨0, 0⟩ : P2 Rat) ⟨4, 0⟩ ⟨9, 7⟩ = 1 ∧
+    segmentFraction (⟨0, 0⟩ : P2 Rat) ⟨4, 0⟩ ⟨-2, 1⟩ = 0 := by decide +kernel
 
 /-! non-vacuity: a two-component line with a zero-length component in between -/
 example : let l : Line Rat := [[1, 2], [0], [3]]
